@@ -238,9 +238,13 @@ func buildOne(r *rand.Rand, name string, docs []sq.Doc) (*build, error) {
 		b.cmp, b.merged = false, true
 		b.none = name == "merged-none"
 		return b, reader(w)
-	case "with-deletes", "backup-deletes", "reopen-deletes":
+	case "with-deletes", "backup-deletes", "reopen-deletes", "merged-deletes":
 		wpath := tmpdir()
-		w, err := open(cfg(wpath, 1, "none", false))
+		mergeMode := "none"
+		if name == "merged-deletes" {
+			mergeMode = "eager" // merges of SOME segments while others carry pending deletions
+		}
+		w, err := open(cfg(wpath, 1, mergeMode, false))
 		if err != nil {
 			return b, err
 		}
@@ -270,6 +274,10 @@ func buildOne(r *rand.Rand, name string, docs []sq.Doc) (*build, error) {
 			return b, err
 		}
 		b.cmp = false
+		if name == "merged-deletes" {
+			time.Sleep(30 * time.Millisecond) // let the merger work; whatever layout results is a legal one
+			b.merged = true
+		}
 		switch name {
 		case "backup-deletes":
 			// the backup must carry the pending deletions (they live in the snapshot, not in the segment files)
@@ -446,7 +454,7 @@ func main() {
 		ncorp, nqs = 300, 16
 	}
 	recipes := []string{"all-at-once", "one-per-batch", "partition-mem", "v2", "noopt", "reopen", "backup", "score-none",
-		"offline-1", "offline-3", "offline-100", "merged", "merged-none", "with-deletes", "backup-deletes", "reopen-deletes", "multi-2", "multi-3"}
+		"offline-1", "offline-3", "offline-100", "merged", "merged-none", "with-deletes", "backup-deletes", "reopen-deletes", "merged-deletes", "multi-2", "multi-3"}
 	for ci := 0; ci < ncorp; ci++ {
 		nd := []int{0, 1, 3, 7, 12, 15, 25, 40}[r.Intn(8)]
 		if ci == 0 {
@@ -457,6 +465,39 @@ func main() {
 		if len(c.Segs) > 0 {
 			docs = c.Segs[0].Docs
 			c.Segs[0].Del = []int{}
+		}
+		if len(docs) >= 12 && ci%3 == 1 {
+			// a structured corpus for the three-term conjunction: the two rare terms share the first two documents, the
+			// frequent third term only starts at the fifth (so the first small batches do not contain it at all)
+			strip := func(ts []sq.Term, drop ...int) []sq.Term {
+				var rv []sq.Term
+				for _, t := range ts {
+					keep := true
+					for _, x := range drop {
+						if len(t) == 1 && t[0] == x {
+							keep = false
+						}
+					}
+					if keep {
+						rv = append(rv, t)
+					}
+				}
+				return rv
+			}
+			for i := range docs {
+				f := strip(docs[i].T["f1"], 1, 2, 3)
+				switch {
+				case i < 2 || i == 8 || i == 9:
+					f = append(f, sq.Term{1}, sq.Term{2})
+				}
+				if i >= 4 {
+					f = append(f, sq.Term{3})
+				}
+				if len(f) == 0 {
+					f = []sq.Term{{1, 1}}
+				}
+				docs[i].T["f1"] = f
+			}
 		}
 		// single-valued sort/aggregation field; id ranks (string order of the document names)
 		names := []string{}
@@ -508,6 +549,10 @@ func main() {
 					a = docs[r.Intn(len(docs))].K["u1"][0]
 				}
 				q = &sq.Q{T: "bool", Must: []*sq.Q{{T: "term", F: "u1", V: a}, {T: "term", F: "k1", V: sq.Vocab[r.Intn(4)]}}}
+			case 5: // a scored conjunction of three terms of one text field (a term that is absent from one of the segments)
+				q = &sq.Q{T: "bool", Must: []*sq.Q{{T: "term", F: "f1", V: sq.Vocab[0]}, {T: "term", F: "f1", V: sq.Vocab[1]}, {T: "term", F: "f1", V: sq.Vocab[2]}}}
+			case 6:
+				q = &sq.Q{T: "bool", Must: []*sq.Q{{T: "term", F: "f1", V: sq.Vocab[r.Intn(3)]}, {T: "term", F: "f2", V: sq.Vocab[r.Intn(3)]}, {T: "term", F: "f1", V: sq.Vocab[3+r.Intn(7)]}}}
 			case 2:
 				q = &sq.Q{T: "bool", Should: []*sq.Q{{T: "term", F: "f2", V: sq.Vocab[r.Intn(4)]}, {T: "term", F: "f1", V: sq.Vocab[r.Intn(4)]}}, Min: 1}
 			default:
